@@ -135,6 +135,30 @@ impl Image {
         }
     }
 
+    /// Verification hook (compiled only with `--cfg unitedtraders_aeron_rs_verif`): build an `Image` over given
+    /// log buffers and subscriber position counter exactly as the conductor does, without a media driver.
+    #[cfg(unitedtraders_aeron_rs_verif)]
+    #[allow(clippy::too_many_arguments)]
+    pub fn create_for_verif(
+        session_id: i32,
+        correlation_id: i64,
+        subscription_registration_id: i64,
+        source_identity: CString,
+        subscriber_position: &UnsafeBufferPosition,
+        log_buffers: Arc<LogBuffers>,
+        exception_handler: Box<dyn ErrorHandler + Send>,
+    ) -> Image {
+        Self::create(
+            session_id,
+            correlation_id,
+            subscription_registration_id,
+            source_identity,
+            subscriber_position,
+            log_buffers,
+            exception_handler,
+        )
+    }
+
     fn validate_position(&self, new_position: i64) -> Result<(), AeronError> {
         let current_position = self.subscriber_position.get();
         let limit_position =
